@@ -63,6 +63,7 @@ mut("tree-arena-twice", MAC, "let mut __arena: &mut ::indextree::Arena<_> = #are
 mut("tree-children-not-reversed", MAC, "        stack.extend(children.into_iter().map(Either::Left).rev());", "        stack.extend(children.into_iter().map(Either::Left));", ["C15"])
 mut("tree-marker-after-children", MAC, "        stack.push(Either::Right(NestingLevelMarker));\n        action_buffer.push(Action::Nest);\n        stack.extend(children.into_iter().map(Either::Left).rev());",
     "        action_buffer.push(Action::Nest);\n        stack.extend(children.into_iter().map(Either::Left).rev());\n        stack.push(Either::Right(NestingLevelMarker));", ["C15"])
+mut("tree-no-marker", MAC, "        stack.push(Either::Right(NestingLevelMarker));\n", "", ["C15"], note="the nesting marker is never pushed: no Parent is ever emitted (the stack still is a node-or-marker stack by type, so clauses (5)/(6) apply)")
 mut("tree-parent-no-assign", MAC, "                __node = __temp;\n", "", ["C15"], note="found by the automut campaign: the Parent template no longer moves the cursor up")
 mut("append-ignores-error", IDR, """        self.checked_append(new_child, arena)
             .expect("Preconditions not met: invalid argument");""", """        let _ = self.checked_append(new_child, arena);""", ["C05"], note="the panicking wrapper swallows the refusal")
